@@ -1,0 +1,673 @@
+//! C03 adapter: the real multistream-select code behind the line protocol.
+//!
+//! Pure operations (`enc`, `dec`, `wenc`, `wlisten`, `wpropose`/`wnext`/`wresp`, `wpair`) call the
+//! real functions on the given bytes. Stream operations (`negotiate`, `dial`, `listen`) run the real
+//! `dialer_select_proto` / `listener_select_proto` futures over an in-memory duplex whose chunking and
+//! `Poll::Pending` injections are scripted by the operation; the futures are polled by hand in a
+//! scripted order, so that a case replays exactly.
+//!
+//! Names, payloads and wire bytes are hex strings (`-` is the empty string), lists are comma
+//! separated.
+
+use super::{
+    dialer_select_proto, listener_select_proto,
+    protocol::webrtc_encode_multistream_message,
+    webrtc_listener_negotiate, HandshakeResult, HeaderLine, ListenerSelectResult, Message,
+    NegotiationError, Protocol, ProtocolError, Version, WebRtcDialerState,
+};
+use crate::{
+    types::protocol::ProtocolName,
+    verif::{hex, kv, unhex, VerifBox},
+};
+
+use bytes::{Bytes, BytesMut};
+use futures::{
+    io::{AsyncRead, AsyncWrite},
+    AsyncReadExt, AsyncWriteExt,
+};
+
+use std::{
+    cell::RefCell,
+    collections::VecDeque,
+    future::Future,
+    io,
+    pin::Pin,
+    rc::Rc,
+    task::{Context, Poll, RawWaker, RawWakerVTable, Waker},
+};
+
+fn hx(b: &[u8]) -> String {
+    if b.is_empty() {
+        "-".into()
+    } else {
+        hex(b)
+    }
+}
+
+fn unhx(s: &str) -> Vec<u8> {
+    if s == "-" {
+        Vec::new()
+    } else {
+        unhex(s)
+    }
+}
+
+fn list(s: &str) -> Vec<Vec<u8>> {
+    if s == "-" || s.is_empty() {
+        Vec::new()
+    } else {
+        s.split(',').map(unhx).collect()
+    }
+}
+
+fn script(s: Option<&&str>) -> Script {
+    let items = match s {
+        None => Vec::new(),
+        Some(s) if **s == *"-" => Vec::new(),
+        Some(s) => s.split(',').map(|x| x.parse().expect("script item")).collect(),
+    };
+    Script { items, pos: 0 }
+}
+
+/// One direction of the duplex.
+#[derive(Default)]
+struct Dir {
+    data: VecDeque<u8>,
+    /// The writer closed its side or was dropped.
+    closed: bool,
+    /// The reader was dropped: further writes are accepted and discarded.
+    reader_gone: bool,
+    /// Everything ever written in this direction.
+    log: Vec<u8>,
+}
+
+/// Scripted sizes for successive polls: `0` is an injected `Poll::Pending`, `k > 0` transfers at
+/// most `k` bytes; an exhausted script transfers as much as possible.
+struct Script {
+    items: Vec<usize>,
+    pos: usize,
+}
+
+impl Script {
+    fn peek(&self) -> Option<usize> {
+        self.items.get(self.pos).copied()
+    }
+}
+
+struct Shared {
+    /// Incremented whenever anything observable happens on the duplex (used to detect a deadlock).
+    activity: u64,
+}
+
+struct End {
+    rx: Rc<RefCell<Dir>>,
+    tx: Rc<RefCell<Dir>>,
+    rscript: Script,
+    wscript: Script,
+    shared: Rc<RefCell<Shared>>,
+}
+
+impl End {
+    fn tick(&self) {
+        self.shared.borrow_mut().activity += 1;
+    }
+}
+
+impl AsyncRead for End {
+    fn poll_read(
+        mut self: Pin<&mut Self>,
+        _cx: &mut Context<'_>,
+        buf: &mut [u8],
+    ) -> Poll<io::Result<usize>> {
+        if buf.is_empty() {
+            return Poll::Ready(Ok(0));
+        }
+        let avail = self.rx.borrow().data.len();
+        if avail == 0 {
+            return if self.rx.borrow().closed {
+                Poll::Ready(Ok(0))
+            } else {
+                Poll::Pending
+            };
+        }
+        let limit = match self.rscript.peek() {
+            Some(0) => {
+                self.rscript.pos += 1;
+                self.tick();
+                return Poll::Pending;
+            }
+            Some(k) => {
+                self.rscript.pos += 1;
+                k
+            }
+            None => usize::MAX,
+        };
+        let n = limit.min(buf.len()).min(avail);
+        {
+            let mut rx = self.rx.borrow_mut();
+            for slot in buf.iter_mut().take(n) {
+                *slot = rx.data.pop_front().expect("available");
+            }
+        }
+        self.tick();
+        Poll::Ready(Ok(n))
+    }
+}
+
+impl AsyncWrite for End {
+    fn poll_write(
+        mut self: Pin<&mut Self>,
+        _cx: &mut Context<'_>,
+        buf: &[u8],
+    ) -> Poll<io::Result<usize>> {
+        if buf.is_empty() {
+            return Poll::Ready(Ok(0));
+        }
+        let limit = match self.wscript.peek() {
+            Some(0) => {
+                self.wscript.pos += 1;
+                self.tick();
+                return Poll::Pending;
+            }
+            Some(k) => {
+                self.wscript.pos += 1;
+                k
+            }
+            None => usize::MAX,
+        };
+        let n = limit.min(buf.len());
+        {
+            let mut tx = self.tx.borrow_mut();
+            tx.log.extend_from_slice(&buf[..n]);
+            if !tx.reader_gone {
+                tx.data.extend(&buf[..n]);
+            }
+        }
+        self.tick();
+        Poll::Ready(Ok(n))
+    }
+
+    fn poll_flush(mut self: Pin<&mut Self>, _cx: &mut Context<'_>) -> Poll<io::Result<()>> {
+        if let Some(0) = self.wscript.peek() {
+            self.wscript.pos += 1;
+            self.tick();
+            return Poll::Pending;
+        }
+        Poll::Ready(Ok(()))
+    }
+
+    fn poll_close(self: Pin<&mut Self>, _cx: &mut Context<'_>) -> Poll<io::Result<()>> {
+        self.tx.borrow_mut().closed = true;
+        self.tick();
+        Poll::Ready(Ok(()))
+    }
+}
+
+impl Drop for End {
+    fn drop(&mut self) {
+        self.tx.borrow_mut().closed = true;
+        self.rx.borrow_mut().reader_gone = true;
+        self.tick();
+    }
+}
+
+fn noop_waker() -> Waker {
+    fn clone(_: *const ()) -> RawWaker {
+        RawWaker::new(std::ptr::null(), &VTABLE)
+    }
+    fn noop(_: *const ()) {}
+    static VTABLE: RawWakerVTable = RawWakerVTable::new(clone, noop, noop, noop);
+    // SAFETY: the vtable functions do nothing and the data pointer is never dereferenced.
+    unsafe { Waker::from_raw(RawWaker::new(std::ptr::null(), &VTABLE)) }
+}
+
+fn io_kind(k: io::ErrorKind) -> String {
+    match k {
+        io::ErrorKind::InvalidData => "invalid-data".into(),
+        io::ErrorKind::UnexpectedEof => "unexpected-eof".into(),
+        io::ErrorKind::WriteZero => "write-zero".into(),
+        other => format!("{other:?}"),
+    }
+}
+
+fn proto_err(e: &ProtocolError) -> String {
+    match e {
+        ProtocolError::IoError(e) => format!("io:{}", io_kind(e.kind())),
+        ProtocolError::InvalidMessage => "invalid-message".into(),
+        ProtocolError::InvalidProtocol => "invalid-protocol".into(),
+        ProtocolError::TooManyProtocols => "too-many-protocols".into(),
+        ProtocolError::ProtocolNotSupported => "not-supported".into(),
+    }
+}
+
+fn neg_err(e: &NegotiationError) -> String {
+    match e {
+        NegotiationError::Failed => "err:failed".into(),
+        NegotiationError::ProtocolError(e) => format!("err:{}", proto_err(e)),
+    }
+}
+
+fn crate_neg_err(e: &crate::error::NegotiationError) -> String {
+    use crate::error::NegotiationError as E;
+    match e {
+        E::MultistreamSelectError(e) => neg_err(e),
+        E::ParseError(_) => "err:parse".into(),
+        E::StateMismatch => "err:state-mismatch".into(),
+        other => format!("err:{other:?}").replace(' ', "_"),
+    }
+}
+
+fn crate_err(e: &crate::Error) -> String {
+    match e {
+        crate::Error::NegotiationError(e) => crate_neg_err(e),
+        crate::Error::InvalidData => "err:invalid-data".into(),
+        other => format!("err:{other:?}").replace(' ', "_"),
+    }
+}
+
+fn parse_version(s: &str) -> Version {
+    match s {
+        "v1" => Version::V1,
+        "lazy" => Version::V1Lazy,
+        _ => panic!("version"),
+    }
+}
+
+type TaskOut = (String, Vec<u8>);
+type Task = Pin<Box<dyn Future<Output = TaskOut>>>;
+
+/// What the test application does with a negotiated stream: write the payload, flush, wait for the
+/// negotiation to complete (relevant for the lazy dialer), close the write side, read to the end.
+async fn after<R: AsyncRead + AsyncWrite + Unpin>(
+    name: Vec<u8>,
+    mut io: super::Negotiated<R>,
+    pay: Vec<u8>,
+) -> TaskOut {
+    if let Err(e) = io.write_all(&pay).await {
+        return (format!("err:app-write:{}", io_kind(e.kind())), Vec::new());
+    }
+    if let Err(e) = io.flush().await {
+        return (format!("err:app-flush:{}", io_kind(e.kind())), Vec::new());
+    }
+    let mut io = match io.complete().await {
+        Ok(io) => io,
+        Err(e) => return (neg_err(&e), Vec::new()),
+    };
+    if let Err(e) = io.close().await {
+        return (format!("err:app-close:{}", io_kind(e.kind())), Vec::new());
+    }
+    let mut buf = Vec::new();
+    if let Err(e) = io.read_to_end(&mut buf).await {
+        return (format!("err:app-read:{}", io_kind(e.kind())), buf);
+    }
+    (format!("ok:{}", hx(&name)), buf)
+}
+
+fn dial_task(io: End, protos: Vec<Vec<u8>>, version: Version, pay: Vec<u8>) -> Task {
+    Box::pin(async move {
+        match dialer_select_proto(io, protos, version).await {
+            Err(e) => (neg_err(&e), Vec::new()),
+            Ok((name, io)) => after(name, io, pay).await,
+        }
+    })
+}
+
+fn listen_task(io: End, protos: Vec<Vec<u8>>, pay: Vec<u8>) -> Task {
+    Box::pin(async move {
+        match listener_select_proto(io, protos).await {
+            Err(e) => (neg_err(&e), Vec::new()),
+            Ok((name, io)) => after(name, io, pay).await,
+        }
+    })
+}
+
+/// Poll the tasks by hand in the scripted order until all are finished; `None` for a task that
+/// can make no progress any more.
+fn run(mut tasks: Vec<Task>, order: &str, shared: &Rc<RefCell<Shared>>) -> Vec<Option<TaskOut>> {
+    let waker = noop_waker();
+    let mut cx = Context::from_waker(&waker);
+    let mut out: Vec<Option<TaskOut>> = tasks.iter().map(|_| None).collect();
+    let order: Vec<usize> = order
+        .bytes()
+        .map(|c| if c == b'l' { 1 } else { 0 })
+        .chain([0usize, 1])
+        .collect();
+    // a task is idle if its last poll changed nothing anywhere; the run is stuck when every
+    // unfinished task is idle
+    let mut idle: Vec<bool> = tasks.iter().map(|_| false).collect();
+    let mut step = 0usize;
+    while out.iter().any(|o| o.is_none())
+        && !(0..tasks.len()).all(|j| out[j].is_some() || idle[j])
+    {
+        let mut i = order[step % order.len()] % tasks.len();
+        step += 1;
+        if out[i].is_some() {
+            i = (0..tasks.len()).find(|j| out[*j].is_none()).expect("unfinished task");
+        }
+        let before = shared.borrow().activity;
+        match tasks[i].as_mut().poll(&mut cx) {
+            Poll::Ready(r) => {
+                out[i] = Some(r);
+                // drop the finished future (and the I/O it owns) right away
+                tasks[i] = Box::pin(async { (String::new(), Vec::new()) });
+                idle.iter_mut().for_each(|x| *x = false);
+            }
+            Poll::Pending =>
+                if shared.borrow().activity == before {
+                    idle[i] = true;
+                } else {
+                    idle.iter_mut().for_each(|x| *x = false);
+                },
+        }
+    }
+    out
+}
+
+fn parse_msg(s: &str) -> Result<Message, String> {
+    let proto = |h: &str| {
+        Protocol::try_from(Bytes::from(unhx(h))).map_err(|e| format!("err:{}", proto_err(&e)))
+    };
+    match s {
+        "header" => Ok(Message::Header(HeaderLine::V1)),
+        "ls" => Ok(Message::ListProtocols),
+        "na" => Ok(Message::NotAvailable),
+        s if s.starts_with("proto:") => Ok(Message::Protocol(proto(&s[6..])?)),
+        s if s.starts_with("protos:") => {
+            let mut v = Vec::new();
+            for h in list(&s[7..]) {
+                v.push(
+                    Protocol::try_from(Bytes::from(h))
+                        .map_err(|e| format!("err:{}", proto_err(&e)))?,
+                );
+            }
+            Ok(Message::Protocols(v))
+        }
+        _ => Err("bad-op".into()),
+    }
+}
+
+fn show_msg(m: &Message) -> String {
+    match m {
+        Message::Header(HeaderLine::V1) => "header".into(),
+        Message::ListProtocols => "ls".into(),
+        Message::NotAvailable => "na".into(),
+        Message::Protocol(p) => format!("proto:{}", hx(p.as_ref())),
+        Message::Protocols(ps) => format!(
+            "protos:{}",
+            if ps.is_empty() {
+                "-".to_string()
+            } else {
+                ps.iter().map(|p| hx(p.as_ref())).collect::<Vec<_>>().join(",")
+            }
+        ),
+    }
+}
+
+fn names(s: &str) -> Option<Vec<ProtocolName>> {
+    list(s)
+        .into_iter()
+        .map(|b| String::from_utf8(b).ok().map(ProtocolName::from))
+        .collect()
+}
+
+fn show_listen(r: &crate::Result<ListenerSelectResult>) -> String {
+    match r {
+        Ok(ListenerSelectResult::Accepted { protocol, message }) =>
+            format!("accepted:{}:{}", hx(protocol.as_bytes()), hx(message)),
+        Ok(ListenerSelectResult::Rejected { message }) => format!("rejected:{}", hx(message)),
+        Ok(ListenerSelectResult::PendingProtocol { message }) => format!("pending:{}", hx(message)),
+        Err(e) => crate_err(e),
+    }
+}
+
+pub struct MssBox {
+    dialer: Option<WebRtcDialerState>,
+}
+
+impl MssBox {
+    pub fn new() -> Self {
+        Self { dialer: None }
+    }
+
+    fn duplex(
+        a: (Script, Script),
+        b: (Script, Script),
+    ) -> (End, End, Rc<RefCell<Dir>>, Rc<RefCell<Dir>>, Rc<RefCell<Shared>>) {
+        let ab = Rc::new(RefCell::new(Dir::default()));
+        let ba = Rc::new(RefCell::new(Dir::default()));
+        let shared = Rc::new(RefCell::new(Shared { activity: 0 }));
+        let ea = End {
+            rx: ba.clone(),
+            tx: ab.clone(),
+            rscript: a.0,
+            wscript: a.1,
+            shared: shared.clone(),
+        };
+        let eb = End {
+            rx: ab.clone(),
+            tx: ba.clone(),
+            rscript: b.0,
+            wscript: b.1,
+            shared: shared.clone(),
+        };
+        (ea, eb, ab, ba, shared)
+    }
+
+    /// The message-based pair, driven the way `transport/webrtc/connection.rs` drives it.
+    /// `split` bit 0: the dialer's first payload (header + proposal) travels as two payloads;
+    /// bit `i + 1`: the listener's `i`-th two-message response travels as two payloads.
+    fn wpair(main: ProtocolName, fb: Vec<ProtocolName>, sup: Vec<ProtocolName>, split: u64) -> String {
+        let (mut dialer, first) = match WebRtcDialerState::propose(main, fb) {
+            Ok(x) => x,
+            Err(e) => return format!("d={} l=none", crate_err(&e)),
+        };
+        // payloads travelling to the listener
+        let mut to_listener: VecDeque<Vec<u8>> = VecDeque::new();
+        let header_frame_len = 1 + super::protocol::MSG_MULTISTREAM_1_0.len();
+        if split & 1 == 1 {
+            to_listener.push_back(first[..header_frame_len].to_vec());
+            to_listener.push_back(first[header_frame_len..].to_vec());
+        } else {
+            to_listener.push_back(first);
+        }
+        let mut header_received = false;
+        let mut accepted: Option<ProtocolName> = None;
+        let mut round = 0u32;
+        let mut lres = "none".to_string();
+        while let Some(payload) = to_listener.pop_front() {
+            round += 1;
+            if round > 10_000 {
+                return "d=stuck l=stuck".into();
+            }
+            let r = webrtc_listener_negotiate(sup.clone(), Bytes::from(payload), header_received);
+            let (message, two) = match r {
+                Ok(ListenerSelectResult::Accepted { protocol, message }) => {
+                    accepted = Some(protocol.clone());
+                    lres = format!("accepted:{}", hx(protocol.as_bytes()));
+                    (message, !header_received)
+                }
+                Ok(ListenerSelectResult::Rejected { message }) => {
+                    let two = !header_received;
+                    header_received = true;
+                    (message, two)
+                }
+                Ok(ListenerSelectResult::PendingProtocol { message }) => {
+                    header_received = true;
+                    (message, false)
+                }
+                Err(e) => return format!("d=none l={}", crate_err(&e)),
+            };
+            // deliver the response to the dialer, possibly as two payloads
+            let message = message.to_vec();
+            let parts: Vec<Vec<u8>> =
+                if two && message.len() > header_frame_len && round < 64 && (split >> round) & 1 == 1 {
+                    vec![message[..header_frame_len].to_vec(), message[header_frame_len..].to_vec()]
+                } else {
+                    vec![message]
+                };
+            for part in parts {
+                match dialer.register_response(part) {
+                    Ok(HandshakeResult::NotReady) => {}
+                    Ok(HandshakeResult::Succeeded(p)) =>
+                        return format!("d=succeeded:{} l={}", hx(p.as_bytes()), lres),
+                    Ok(HandshakeResult::Rejected) => match dialer.propose_next_fallback() {
+                        Ok(Some(m)) => to_listener.push_back(m),
+                        Ok(None) => return format!("d=err:failed l={lres}"),
+                        Err(e) => return format!("d={} l={}", crate_err(&e), lres),
+                    },
+                    Err(e) => return format!("d={} l={}", crate_neg_err(&e), lres),
+                }
+            }
+            if accepted.is_some() {
+                return format!("d=not-ready l={lres}");
+            }
+        }
+        format!("d=not-ready l={lres}")
+    }
+}
+
+impl VerifBox for MssBox {
+    fn step(&mut self, line: &str) -> String {
+        let t: Vec<&str> = line.split_whitespace().collect();
+        match t.as_slice() {
+            ["enc", m] => match parse_msg(m) {
+                Ok(m) => {
+                    let mut buf = BytesMut::new();
+                    match m.encode(&mut buf) {
+                        Ok(()) => {
+                            assert_eq!(buf.len(), m.encoded_len(), "encoded_len");
+                            hx(&buf)
+                        }
+                        Err(e) => format!("err:{}", proto_err(&e)),
+                    }
+                }
+                Err(e) => e,
+            },
+            ["dec", h] => match Message::decode(Bytes::from(unhx(h))) {
+                Ok(m) => show_msg(&m),
+                Err(e) => format!("err:{}", proto_err(&e)),
+            },
+            ["wenc", m, hdr] => match parse_msg(m) {
+                Ok(m) => match webrtc_encode_multistream_message(m, *hdr == "1") {
+                    Ok(b) => hx(&b),
+                    Err(e) => crate_err(&e),
+                },
+                Err(e) => e,
+            },
+            ["wlisten", rest @ ..] => {
+                let a = kv(rest);
+                let Some(sup) = names(a.get("sup").copied().unwrap_or("-")) else {
+                    return "bad-op".into();
+                };
+                let payload = Bytes::from(unhx(a.get("payload").copied().unwrap_or("-")));
+                show_listen(&webrtc_listener_negotiate(sup, payload, a.get("hr") == Some(&"1")))
+            }
+            ["wpropose", rest @ ..] => {
+                let a = kv(rest);
+                let (Some(main), Some(fb)) = (
+                    names(a.get("main").copied().unwrap_or("-")),
+                    names(a.get("fb").copied().unwrap_or("-")),
+                ) else {
+                    return "bad-op".into();
+                };
+                let [main] = main.as_slice() else {
+                    return "bad-op".into();
+                };
+                match WebRtcDialerState::propose(main.clone(), fb) {
+                    Ok((st, m)) => {
+                        self.dialer = Some(st);
+                        format!("ok:{}", hx(&m))
+                    }
+                    Err(e) => crate_err(&e),
+                }
+            }
+            ["wnext"] => match self.dialer.as_mut() {
+                None => "bad-op".into(),
+                Some(d) => match d.propose_next_fallback() {
+                    Ok(None) => "none".into(),
+                    Ok(Some(m)) => format!("some:{}", hx(&m)),
+                    Err(e) => crate_err(&e),
+                },
+            },
+            ["wresp", h] => match self.dialer.as_mut() {
+                None => "bad-op".into(),
+                Some(d) => match d.register_response(unhx(h)) {
+                    Ok(HandshakeResult::NotReady) => "not-ready".into(),
+                    Ok(HandshakeResult::Succeeded(p)) => format!("succeeded:{}", hx(p.as_bytes())),
+                    Ok(HandshakeResult::Rejected) => "rejected".into(),
+                    Err(e) => crate_neg_err(&e),
+                },
+            },
+            ["wpair", rest @ ..] => {
+                let a = kv(rest);
+                let (Some(main), Some(fb), Some(sup)) = (
+                    names(a.get("main").copied().unwrap_or("-")),
+                    names(a.get("fb").copied().unwrap_or("-")),
+                    names(a.get("sup").copied().unwrap_or("-")),
+                ) else {
+                    return "bad-op".into();
+                };
+                let [main] = main.as_slice() else {
+                    return "bad-op".into();
+                };
+                let split = a.get("split").map(|s| s.parse().expect("split")).unwrap_or(0);
+                Self::wpair(main.clone(), fb, sup, split)
+            }
+            ["negotiate", rest @ ..] => {
+                let a = kv(rest);
+                let version = parse_version(a.get("ver").copied().unwrap_or("v1"));
+                let dnames = list(a.get("dialer").copied().unwrap_or("-"));
+                let lnames = list(a.get("listener").copied().unwrap_or("-"));
+                let dpay = unhx(a.get("dpay").copied().unwrap_or("-"));
+                let lpay = unhx(a.get("lpay").copied().unwrap_or("-"));
+                let (ed, el, dl, ld, shared) = Self::duplex(
+                    (script(a.get("dr")), script(a.get("dw"))),
+                    (script(a.get("lr")), script(a.get("lw"))),
+                );
+                let tasks = vec![dial_task(ed, dnames, version, dpay), listen_task(el, lnames, lpay)];
+                let out = run(tasks, a.get("order").copied().unwrap_or("dl"), &shared);
+                let show = |o: &Option<TaskOut>| match o {
+                    None => ("stuck".to_string(), "-".to_string()),
+                    Some((r, read)) => (r.clone(), hx(read)),
+                };
+                let (d, dread) = show(&out[0]);
+                let (l, lread) = show(&out[1]);
+                let dw = hx(&dl.borrow().log);
+                let lw = hx(&ld.borrow().log);
+                format!("d={d} l={l} dread={dread} lread={lread} dw={dw} lw={lw}")
+            }
+            [role @ ("dial" | "listen"), rest @ ..] => {
+                let a = kv(rest);
+                let protos = list(a.get("protos").copied().unwrap_or("-"));
+                let pay = unhx(a.get("pay").copied().unwrap_or("-"));
+                let peer = unhx(a.get("peer").copied().unwrap_or("-"));
+                let (ours, theirs, out_dir, in_dir, shared) = Self::duplex(
+                    (script(a.get("r")), script(a.get("w"))),
+                    (script(None), script(None)),
+                );
+                // the scripted peer has sent everything and closed its write side; it keeps
+                // its read side open, so everything we write is accepted
+                {
+                    let mut d = in_dir.borrow_mut();
+                    d.data.extend(peer.iter());
+                    d.closed = true;
+                }
+                let task = if *role == "dial" {
+                    let version = parse_version(a.get("ver").copied().unwrap_or("v1"));
+                    dial_task(ours, protos, version, pay)
+                } else {
+                    listen_task(ours, protos, pay)
+                };
+                let out = run(vec![task], "d", &shared);
+                let wrote = hx(&out_dir.borrow().log);
+                // the peer's end stayed alive until here
+                drop(theirs);
+                match &out[0] {
+                    None => format!("r=stuck wrote={wrote} read=-"),
+                    Some((r, read)) => format!("r={r} wrote={wrote} read={}", hx(read)),
+                }
+            }
+            _ => "bad-op".into(),
+        }
+    }
+}
